@@ -39,7 +39,8 @@ SHRINK_LIST_KEYS = ['ops', 'replicas']
 CHUNK = 10
 
 PROFILE = H.Profile('c06', nops=(3, 20), final_restart=False,
-                    weights={'restart': 0, 'add_boot_file': 2, 'add_eltorito': 4, 'add_isohybrid': 2, 'dup_pvd': 0.3, 'rm_file': 9, 'rm_dir': 6, 'rm_link': 6})
+                    weights={'restart': 0, 'add_boot_file': 2, 'add_eltorito': 4, 'add_isohybrid': 2, 'dup_pvd': 0.3, 'rm_file': 9, 'rm_dir': 6, 'rm_link': 6,
+                             're_add': 5, 'hide': 7})
 
 EXTRA_KINDS = ('force', 'get_record', 'list_children', 'walk_start', 'read_file', 'extract', 'write_scratch', 'has')
 
@@ -48,6 +49,16 @@ def generate(seed, tier='quick'):
     plan = H.generate(seed, PROFILE)
     w = W.World(seed)
     r = w.rng('c06sched')
+    # sometimes the history ends with add_isohybrid: nothing after it repairs what it leaves stale
+    fm = M.Model(plan['cfg'])
+    for op in plan['ops']:
+        if M.valid(fm, op):
+            fm.apply(op)
+    if fm.eltorito and not fm.hybrid and r.random() < 0.5:
+        hop = G.OpGen(w.rng('c06hyb.ops'), w.rng('c06hyb.args'), fm).g_add_isohybrid()
+        if hop is not None and M.valid(fm, hop):
+            hop['dt'] = 0.0
+            plan['ops'].append(hop)
     # absolute instants per edit (frozen clock: every replica reads exactly these)
     t = plan['env']['clock0']
     for op in plan['ops']:
@@ -112,6 +123,22 @@ def generate(seed, tier='quick'):
             elif kind == 'write_scratch':
                 ex['times'] = r.choice((1, 1, 2, 3))
             rep['extras'].append(ex)
+        # pattern: look an entry up by its Rock Ridge path, let the history remove it and add the same path again, then
+        # (after force_consistency) look it up once more - a lookup cache that outlives the removal answers with the dead record
+        if r.random() < 0.4:
+            for j, op in enumerate(plan['ops']):
+                if op.get('_readd') and op.get('iso') and op.get('rr') and states[j].rr:
+                    rp_parent = rr_path(states[j], M.split(op['iso'])[0])
+                    if rp_parent is None:
+                        continue
+                    rp = (rp_parent if rp_parent != '/' else '') + '/' + op['rr']
+                    first = next((g for g in range(j + 1) if states[g].get_rr(rp) is not None), None)
+                    if first is None:
+                        continue
+                    rep['extras'].append({'gap': first, 'kind': 'get_record', 'ns': 'rr', 'path': rp})
+                    rep['extras'].append({'gap': len(plan['ops']), 'kind': 'force'})
+                    rep['extras'].append({'gap': len(plan['ops']), 'kind': 'get_record', 'ns': 'rr', 'path': rp})
+                    break
         rep['extras'].sort(key=lambda e: e['gap'])
         reps.append(rep)
     plan['replicas'] = reps
